@@ -137,7 +137,9 @@ class CRSMinimizerImpl(
 
         status = opt.last_optimize_result()
 
-        res = {"x": x, "success": True if status > 0 else False, "status": status, "message": self.get_message(status), 
+        # The positive status values 5 (maxeval reached) and 6 (maxtime reached)
+        # indicate that the optimization stopped before it converged.
+        res = {"x": x, "success": True if 0 < status < 5 else False, "status": status, "message": self.get_message(status), 
                "nfev": opt.get_numevals(), "fun": val}
 
         return (x, val, res)
